@@ -89,7 +89,7 @@ def _cases(draw, tier):
     cfg = {'general': general}
     zones = {}
     pre = {}
-    if draw(st.integers(0, 2)) == 0:
+    if draw(st.integers(0, 1)) == 0:
         s = draw(st.integers(0, top))
         e = draw(st.integers(s, top))
         zones['ROM'] = (s, e)
@@ -104,6 +104,8 @@ def _cases(draw, tier):
     env = {'address_size': asz, 'zone_names': sorted(zones), 'zones': zones, 'keys': list(isagen.ENUM_KEYS)}
     kind = draw(st.sampled_from(KINDS))
     alt = draw(isagen.alternative(kind, ['hl', 'a'], env))
+    if kind == 'address' and 'ROM' in zones and draw(st.integers(0, 3)) != 0:
+        alt['argument']['memory_zone'] = 'ROM'
     if kind == 'indirect_register':
         alt.pop('decorator', None)
         if 'offset' not in alt:
@@ -113,6 +115,17 @@ def _cases(draw, tier):
                                    'operands': {'count': 1, 'operand_sets': {'list': ['ops']}}}}
     isa = R.Isa(cfg)
     glo, ghi = isa.zones['GLOBAL']
+    zone_decl = None
+    if kind == 'address' and alt['argument'].get('memory_zone') == 'ROM' and glo <= zones['ROM'][0] and zones['ROM'][1] <= ghi:
+        # the zone the operand is confined to may also be declared by the program, before or after the statement
+        how = draw(st.sampled_from(['config', 'before', 'after']))
+        if how != 'config':
+            zone_decl = [how, zones['ROM'][0], zones['ROM'][1]]
+            pre['memory_zones'] = [z for z in pre['memory_zones'] if z['name'] != 'ROM']
+            if not pre['memory_zones']:
+                del pre['memory_zones']
+            if not pre:
+                cfg.pop('predefined', None)
     dummy = {'k': {'numeric': 'expr', 'numeric_bytecode': 'expr', 'numeric_enumeration': 'expr', 'address': 'expr',
                    'relative_address': 'braced' if alt.get('use_curly_braces') else 'expr',
                    'indirect_numeric': 'indnum', 'deferred_numeric': 'defnum', 'indirect_register': 'indreg'}[kind],
@@ -140,7 +153,7 @@ def _cases(draw, tier):
             op.pop(k)
         op['e'] = isagen.value_ast(draw, v, consts, simple=simple, allow_chr=True)
     return {'isa': cfg, 'address': address, 'op': op, 'value': v, 'tag': tag, 'consts': consts, 'size': size,
-            'fill': draw(st.sampled_from([0, 0xEE]))}
+            'zone_decl': zone_decl, 'fill': draw(st.sampled_from([0, 0xEE]))}
 
 
 def strategy(tier):
@@ -162,7 +175,14 @@ def execute(case, ctx):
     fname, text = isagen.dump_isa(cfg, 'yaml')
     consts = case['consts']
     src = ''.join(f'{k} = {v}\n' for k, v in consts.items())
+    zd = case.get('zone_decl')
+    if zd:
+        isa.zones['ROM'] = (zd[1], zd[2])
+        if zd[0] == 'before':
+            src += f'#create_memzone ROM {zd[1]} ${zd[2]:x}\n'
     src += f'.org {case["address"]}\n' + isagen.render_statement('tst', [case['op']]) + '\n'
+    if zd and zd[0] == 'after':
+        src += f'#create_memzone ROM {zd[1]} ${zd[2]:x}\n'
 
     def resolve(name):
         if name in consts:
@@ -187,6 +207,9 @@ def execute(case, ctx):
         findings.append(Finding('C12/timeout', detail))
     elif verdict == 'reject' and res.klass == 'accepted':
         findings.append(Finding(f'C12/violating-value-accepted/{kindtag}', detail))
+    elif verdict == 'accept' and zd and zd[0] == 'after':
+        # nothing says whether a zone may be named by an operand before the program declares it
+        return Outcome(classes=['unspecified:zone declared after its use'], evals=1, excluded=['zone declared after its use'])
     elif verdict == 'accept' and res.klass != 'accepted':
         findings.append(Finding(f'C12/satisfying-value-rejected/{kindtag}', detail))
     elif verdict == 'accept':
@@ -195,7 +218,7 @@ def execute(case, ctx):
             findings.append(Finding(f'C12/wrong-encoding/{alt["type"]}', detail))
     nb = near_boundary(case, isa)
     classes = ['kind:' + alt['type'], 'tag:' + case['tag'], 'model:' + verdict, 'outcome:' + res.klass,
-               'near-boundary' if nb else 'interior']
+               'near-boundary' if nb else 'interior'] + (['zone-declared-in-source:' + zd[0]] if zd else [])
     sample = {'statement': isagen.render_statement('tst', [case['op']]), 'value': case['value'], 'at': case['address'],
               'alternative': alt, 'model': verdict + (': ' + why if why else ''), 'tool': res.klass}
     return Outcome(findings, nb, classes, 1, sample=sample)
